@@ -48,9 +48,9 @@ import (
 
 	"github.com/teleport-network/teleport/app"
 	teletypes "github.com/teleport-network/teleport/types"
-	ethermint "github.com/tharsis/ethermint/types"
 	xibctmtypes "github.com/teleport-network/teleport/x/xibc/clients/light-clients/tendermint/types"
 	clienttypes "github.com/teleport-network/teleport/x/xibc/core/client/types"
+	ethermint "github.com/tharsis/ethermint/types"
 )
 
 // StartTime is the genesis clock of every world.
@@ -142,11 +142,12 @@ type Chain struct {
 
 // Options configures genesis.
 type Options struct {
-	Accounts   []string          // names of funded accounts
-	Balance    int64             // stake balance per account (default 1e14)
-	ExtraCoins map[string]sdk.Coins // extra balances per account name
-	NumVals    int               // default 1
-	GenesisMod func(cdc codec.Codec, gs map[string]json.RawMessage)
+	Accounts        []string             // names of funded accounts
+	Balance         int64                // stake balance per account (default 1e14)
+	NoGenesisCommit bool                 // do not commit after InitChain: the first block is height 1, as on a real network (the repository's fixture commits and starts at 2)
+	ExtraCoins      map[string]sdk.Coins // extra balances per account name
+	NumVals         int                  // default 1
+	GenesisMod      func(cdc codec.Codec, gs map[string]json.RawMessage)
 }
 
 func init() {
@@ -273,7 +274,9 @@ func NewChain(name string, now time.Time, opt Options) *Chain {
 		AppStateBytes:   stateBytes,
 		Time:            now,
 	})
-	c.App.Commit() // genesis commit, as the repository's fixture does (version 1)
+	if !opt.NoGenesisCommit {
+		c.App.Commit() // genesis commit, as the repository's fixture does (version 1)
+	}
 	c.LastTime = now
 	return c
 }
